@@ -577,7 +577,18 @@ func mixed(c *harness.Ctx, dir, store string, uncompressed bool, want map[desync
 			os.WriteFile(p, []byte("damaged"), 0644)
 			before = snap()
 		}
-		if err := own.Verify(context.Background(), 1+rng.Intn(4), true, &msgs); err != nil {
+		if rng.Intn(2) == 0 {
+			// the command, with the store's format (and possibly skip-verify, which people set for reading) in the config
+			cfg := filepath.Join(dir, "verify-config.json")
+			dsu.WriteFile(cfg, []byte(fmt.Sprintf(`{"store-options": {%q: {"uncompressed": %v, "skip-verify": %v}}}`, store, uncompressed, rng.Intn(2) == 0)))
+			cmd := exec.Command(cli, "--config", cfg, "verify", "-r", "-n", fmt.Sprint(1+rng.Intn(4)), "-s", store)
+			cmd.Env = append(os.Environ(), "HOME="+dir)
+			cmd.Stderr = &msgs
+			if err := cmd.Run(); err != nil {
+				c.Violation("verify-failed", "desync verify: %v %s", err, msgs.String())
+				return
+			}
+		} else if err := own.Verify(context.Background(), 1+rng.Intn(4), true, &msgs); err != nil {
 			c.Violation("verify-failed", "%v", err)
 			return
 		}
